@@ -120,6 +120,8 @@ def l1_oracle(pid, p, impl_lines, run, desc):
                     ma = m.msg_attr()
                     if ma[2] is None and m.ret.kind == "path" and m.ret.segs[0][1]:
                         tys.append(m.ret.segs[0][1][0])
+                    elif ma[2] is not None:
+                        tys.append(gen.P(ma[2]))      # the response type named by `resp=` (it may be a type parameter)
                 for t in tys:
                     for g in gens:
                         if g not in used and gen.mentions(strip_self_ty(t), g):
